@@ -284,6 +284,8 @@ func (w *worker) runSession() {
 		w.modeOverlap()
 	case "stall":
 		w.modeStall()
+	case "retain":
+		w.modeRetain()
 	case "coldburst":
 		w.modeColdBurst()
 	case "rand":
@@ -1139,6 +1141,40 @@ func (w *worker) modeStall() {
 			}
 		}
 	}
+}
+
+// modeRetain: retention sweep. One caller makes 2600 calls cycling through the
+// positive probes and literals of the API (seeded order, Runs = variant), with
+// a collection forced eight times along the way (finalizers run as tasks); every
+// returned fingerprint is kept, as a WAF keeps it in transaction variables and
+// audit records, and re-read at the end of the run. Arenas, chunked buffers and
+// zero-copy results that are recycled once their owner is collected or rolled
+// over show here and nowhere else: the answer is right when it is returned.
+func (w *worker) modeRetain() {
+	api := uint8(w.ses.From & 1)
+	cand := BurstCandidates(w.c, api)
+	if len(cand) == 0 {
+		return
+	}
+	r := simrt.NewRNG(w.ses.Seed ^ uint64(0x2e7a1+w.ses.Runs))
+	calls := make([]simrt.Call, 0, 2600)
+	var est int64
+	for k := 0; k < 2600; k++ {
+		i := cand[(k+r.Intn(3))%len(cand)]
+		calls = append(calls, simrt.Call{API: api, Idx: i, Input: w.c.In[i]})
+		est += w.c.Steps[api][i] + 1
+	}
+	tasks := [][]simrt.Call{calls}
+	if w.ses.Runs&1 == 1 {
+		// variant: two callers, half the history each
+		tasks = [][]simrt.Call{calls[:1300], calls[1300:]}
+	}
+	pol := simrt.Policy{Kind: "seq", PoolMode: "lifo", GCEvery: est/8 + 1}
+	if w.ses.Runs&1 == 1 {
+		pol.Kind, pol.Quantum = "rr", 200
+	}
+	spec := &simrt.RunSpec{Seed: uint64(w.ses.Runs)*2 + uint64(api), Tasks: tasks, Policy: pol, Est: est + 64}
+	w.execRun(spec, nil, true)
 }
 
 // WrapPeriods are the distances at which a narrow counter, epoch or
